@@ -48,3 +48,123 @@ package base
 //@   witness L = m.real.data.bucketLengthInMs
 //@   witness Iv = m.intervalInMs
 //@   replay statbase_startrange
+
+// ---- MetricBucket: one bucket's counters. Amounts and counters stay below 2^62 (no int64 overflow).
+//@ spec func small(v) = 0 - 4611686018427387904 < v && v < 4611686018427387904
+//@ spec func validEvent(e) = 0 <= e && e < base.MetricEventTotal
+
+//@ func (mb *MetricBucket) Add(event, count)
+//@   props C08, C09
+//@   requires mb != nil && small(count) && (validEvent(event) ==> small(mb.counter[event]))
+//@   ensures[counted] validEvent(event) ==> mb.counter[event] == old(mb.counter[event]) + count
+//@   ensures[others] forall e Int :: e != event || !validEvent(event) ==> mb.counter[e] == old(mb.counter[e])
+//@   ensures[min-rt] mb.minRt == (event == base.MetricEventRt && count < old(mb.minRt) ? count : old(mb.minRt))
+//@   modifies mb.counter, mb.minRt
+
+//@ func (mb *MetricBucket) Get(event) r
+//@   props C08, C09
+//@   requires mb != nil
+//@   ensures[def] r == (validEvent(event) ? mb.counter[event] : 0)
+//@   modifies nothing
+
+//@ func (mb *MetricBucket) reset()
+//@   props C08, C09
+//@   requires mb != nil
+//@   ensures[zeroed] forall e Int :: validEvent(e) ==> mb.counter[e] == 0
+//@   ensures[defaults] mb.minRt == base.DefaultStatisticMaxRt && mb.maxConcurrency == 0
+//@   modifies mb.counter, mb.minRt, mb.maxConcurrency
+//@   loop 1:
+//@     invariant[prefix-zero] 0 <= i && i <= base.MetricEventTotal && (forall e Int :: 0 <= e && e < i ==> mb.counter[e] == 0)
+//@     invariant[frame] frame(mb.counter)
+
+//@ func (mb *MetricBucket) UpdateConcurrency(concurrency)
+//@   props C08
+//@   requires mb != nil
+//@   ensures[max] mb.maxConcurrency == max(old(mb.maxConcurrency), concurrency)
+//@   modifies mb.maxConcurrency
+
+//@ func (mb *MetricBucket) MinRt() r
+//@   props C08
+//@   requires mb != nil
+//@   ensures r == mb.minRt
+//@   modifies nothing
+
+//@ func (mb *MetricBucket) MaxConcurrency() r
+//@   props C08
+//@   requires mb != nil
+//@   ensures r == mb.maxConcurrency
+//@   modifies nothing
+
+// ---- LeapArray reads.  D9: the unsafe pointer arithmetic of AtomicBucketWrapArray.get/compareAndSet is replaced by
+// the assumed contract "slot idx of data".
+//@ func (aa *AtomicBucketWrapArray) get(idx) r
+//@   assumed
+//@   requires aa != nil
+//@   ensures (0 <= idx && idx < aa.length ==> r == aa.data[idx]) && (!(0 <= idx && idx < aa.length) ==> r == nil)
+//@   modifies nothing
+
+//@ spec rec countTrue(a (Array Int Bool), k Int) Int = k <= 0 ? 0 : countTrue(a, k - 1) + (sel(a, k - 1) ? 1 : 0)
+//@ spec func arrayOK(la) = la != nil && la.array != nil && la.array.length >= 0 && la.array.length == len(la.array.data) && allocated(base(la.array.data)) && (forall i Int :: 0 <= i && i < la.array.length && la.array.data[i] != nil ==> la.array.data[i].BucketStart < 4611686018427387904)
+//@ spec func live(la, now, ww) = ww != nil && !(ww.BucketStart > now || now - ww.BucketStart > la.intervalInMs)
+
+// the result lists, in slot order, exactly the live buckets whose start satisfies the predicate:
+// slot i (if picked) is at position countTrue(pick, i), and the length is countTrue(pick, length)
+//@ func (la *LeapArray) ValuesConditional(now, predicate) r
+//@   props C08
+//@   requires arrayOK(la) && now < 4611686018427387904
+//@   let pick = seqof(i, 0 <= i && i < la.array.length && now > 0 && live(la, now, la.array.data[i]) && predicate(la.array.data[i].BucketStart))
+//@   ensures[time-zero] now == 0 ==> len(r) == 0
+//@   ensures[length] now > 0 ==> len(r) == countTrue(pick, la.array.length)
+//@   ensures[placed] forall i Int :: 0 <= i && i < la.array.length && sel(pick, i) ==> r[countTrue(pick, i)] == la.array.data[i] && countTrue(pick, i) < len(r)
+//@   ensures[fresh] len(r) == 0 || fresh(base(r))
+//@   modifies nothing
+//@   loop 1:
+//@     invariant[idx] 0 <= i && i <= la.array.length
+//@     invariant[length] len(ret) == countTrue(pick, i) && fresh(base(ret))
+//@     invariant[positions] forall k Int :: 0 <= k && k < i && sel(pick, k) ==> 0 <= countTrue(pick, k) && countTrue(pick, k) < len(ret)
+//@     invariant[placed] forall k Int :: 0 <= k && k < i && sel(pick, k) ==> ret[countTrue(pick, k)] == la.array.data[k]
+//@     invariant[frame] frame()
+
+//@ func (la *LeapArray) valuesWithTime(now) r
+//@   props C08
+//@   requires arrayOK(la) && now < 4611686018427387904
+//@   let pick = seqof(i, 0 <= i && i < la.array.length && now > 0 && live(la, now, la.array.data[i]))
+//@   ensures[time-zero] now == 0 ==> len(r) == 0
+//@   ensures[length] now > 0 ==> len(r) == countTrue(pick, la.array.length)
+//@   ensures[placed] forall i Int :: 0 <= i && i < la.array.length && sel(pick, i) ==> r[countTrue(pick, i)] == la.array.data[i] && countTrue(pick, i) < len(r)
+//@   ensures[fresh] len(r) == 0 || fresh(base(r))
+//@   modifies nothing
+//@   loop 1:
+//@     invariant[idx] 0 <= i && i <= la.array.length
+//@     invariant[length] len(ret) == countTrue(pick, i) && fresh(base(ret))
+//@     invariant[positions] forall k Int :: 0 <= k && k < i && sel(pick, k) ==> 0 <= countTrue(pick, k) && countTrue(pick, k) < len(ret)
+//@     invariant[placed] forall k Int :: 0 <= k && k < i && sel(pick, k) ==> ret[countTrue(pick, k)] == la.array.data[k]
+//@     invariant[frame] frame()
+
+// ---- P1 selection: a view reads exactly the live buckets whose start lies in its bucket-aligned window
+//@ spec func inWindow(m, now, s) = max(0, startOf(now, m.real.data.bucketLengthInMs) - m.intervalInMs + m.real.data.bucketLengthInMs) <= s && s <= startOf(now, m.real.data.bucketLengthInMs)
+//@ func (m *SlidingWindowMetric) getSatisfiedBuckets(now) r
+//@   props C08
+//@   requires m != nil && m.real != nil && arrayOK(m.real.data) && m.real.data.bucketLengthInMs > 0 && now < 4611686018427387904
+//@   let la = m.real.data
+//@   let pick = seqof(i, 0 <= i && i < la.array.length && now > 0 && live(la, now, la.array.data[i]) && inWindow(m, now, la.array.data[i].BucketStart))
+//@   ensures[time-zero] now == 0 ==> len(r) == 0
+//@   ensures[length] now > 0 ==> len(r) == countTrue(pick, la.array.length)
+//@   ensures[placed] forall i Int :: 0 <= i && i < la.array.length && sel(pick, i) ==> r[countTrue(pick, i)] == la.array.data[i] && countTrue(pick, i) < len(r)
+//@   modifies nothing
+
+// ---- P4 aggregation
+//@ spec rec seqsum(a (Array Int Int), k Int) Int = k <= 0 ? 0 : seqsum(a, k - 1) + sel(a, k - 1)
+//@ spec func bucketOf(ww) = cast(dynptr(stored(ww.Value)), MetricBucket)
+//@ spec func isBucket(ww) = ww != nil && typeis(stored(ww.Value), "*core/stat/base.MetricBucket") && bucketOf(ww) != nil
+//@ spec func bounded(v) = 0 - 1099511627776 <= v && v <= 1099511627776
+
+//@ func (m *SlidingWindowMetric) count(event, values) r
+//@   props C08
+//@   requires validEvent(event) && len(values) <= 65536
+//@   requires forall j Int :: 0 <= j && j < len(values) ==> isBucket(values[j]) && bounded(bucketOf(values[j]).counter[event])
+//@   let vals = seqof(j, bucketOf(values[j]).counter[event])
+//@   ensures[sum] r == seqsum(vals, len(values))
+//@   modifies nothing
+//@   loop 1:
+//@     invariant[partial-sum] ret == seqsum(vals, #i) && 0 - #i * 1099511627776 <= ret && ret <= #i * 1099511627776
